@@ -103,6 +103,11 @@ class Trees(object):
             f.contexts = [self.ctx(depth, top=True) for _ in range(r.randint(0, 2))]
             if f.contexts and r.random() < 0.3:
                 f.contexts[-1].is_exiting = True
+            elif f.contexts and r.random() < 0.25:
+                # the frame is executing on the very line of its innermost `with` (a later item of a one-line
+                # with statement being entered, or a one-line `with cm: body()`), the manager active, not exiting
+                f.contexts[-1].start_line = f.lineno
+                self.same_line_contexts = getattr(self, "same_line_contexts", 0) + 1
         return f
 
     def ctx(self, depth, top):
